@@ -73,9 +73,12 @@ class Checker:
     def borrow(self, module_name, mapping, note=''):
         """Re-report rules of another property's rule file under this property (a construct can break two properties).
         mapping: {foreign rule id: local rule id}. The foreign rule file is evaluated on a shadow checker; only the mapped rules are copied."""
+        if getattr(self, 'shadow', False):
+            return   # a borrowed rule file does not borrow in turn
         import importlib
         mod = importlib.import_module(module_name)
         sh = Checker(self.prop, self.facts, self.tier, self.seed, self.repo, write=False)
+        sh.shadow = True
         try:
             mod.run(sh, self.facts)
         except AnchorMissing as e:
